@@ -5,6 +5,7 @@ package cff
 import (
 	"bytes"
 
+	"seehuhn.de/go/postscript/funit"
 	"seehuhn.de/go/postscript/type1"
 	"seehuhn.de/go/sfnt/glyph"
 	"seehuhn.de/go/sfnt/parser"
@@ -247,6 +248,12 @@ func VerifH_C13_width() {
 		f.Glyphs = append(f.Glyphs, &Glyph{Name: name, Width: w})
 	}
 	dw, nw := f.selectWidths()
+	// the choice is a function of the widths alone: the same on every call, whatever the map iteration order
+	// (otherwise the same font is written with different bytes from one call to the next)
+	verifMapOrder(true)
+	dw2, nw2 := f.selectWidths()
+	verifMapOrder(false)
+	verifAssert(dw2 == dw && nw2 == nw, "default and nominal width are chosen deterministically")
 	pd := f.makePrivateDict(0, dw, nw)
 	// what the reader will see
 	rdw, rnw := pd.getFloat(opDefaultWidthX, 0), pd.getFloat(opNominalWidthX, 0)
@@ -266,4 +273,35 @@ func VerifH_C13_width() {
 		d := got.Width - g.Width
 		verifAssert(d <= 1.0/65536 && d >= -1.0/65536, "advance width recovered to 16.16 precision")
 	}
+}
+
+// VerifH_C13_private: every field of a private dictionary is entered into the Private DICT under its own
+// operator: what the reader extracts from the DICT (before serialisation, see the assumptions) equals the
+// field, for symbolic field values including the defaults that are omitted.
+func VerifH_C13_private() {
+	p := &type1.PrivateDict{
+		BlueScale: defaultBlueScale,
+		BlueShift: int32(verifI32("blueshift")),
+		BlueFuzz:  int32(verifI32("bluefuzz")),
+		StdHW:     verifDyadic("stdhw", 4, 0, 10000*16),
+		StdVW:     verifDyadic("stdvw", 4, 0, 10000*16),
+		ForceBold: verifBool("forcebold"),
+	}
+	if verifBool("blues") {
+		b0 := funit.Int16(verifI16("blue0"))
+		b1 := funit.Int16(verifI16("blue1"))
+		verifAssume(b0 <= b1 && b1-b0 >= 0)
+		p.BlueValues = []funit.Int16{b0, b1}
+	}
+	f := &Font{FontInfo: &type1.FontInfo{}, Outlines: &Outlines{Private: []*type1.PrivateDict{p}}}
+	dw, nw := verifDyadic("dw", 0, -2000, 2000), verifDyadic("nw", 0, -2000, 2000)
+	pd := f.makePrivateDict(0, dw, nw)
+	verifReach("made")
+	verifAssert(pd.getFloat(opStdHW, 0) == p.StdHW, "StdHW stored under its operator")
+	verifAssert(pd.getFloat(opStdVW, 0) == p.StdVW, "StdVW stored under its operator")
+	verifAssert(pd.getInt(opBlueShift, defaultBlueShift) == p.BlueShift, "BlueShift")
+	verifAssert(pd.getInt(opBlueFuzz, defaultBlueFuzz) == p.BlueFuzz, "BlueFuzz")
+	verifAssert((pd.getInt(opForceBold, 0) != 0) == p.ForceBold, "ForceBold")
+	verifAssert(verifSame(pd.getDeltaF16(opBlueValues), p.BlueValues), "BlueValues")
+	verifAssert(pd.getFloat(opDefaultWidthX, 0) == dw && pd.getFloat(opNominalWidthX, 0) == nw, "default and nominal width")
 }
